@@ -6,6 +6,7 @@ package main
 // vertices / transactions, further proposals that spend checkpointed funds, a second truncation.
 
 import (
+	"strings"
 	"fmt"
 	"math/big"
 	"reflect"
@@ -124,6 +125,19 @@ func truncScenario(c *Ctx, sh truncShape) {
 		return
 	}
 	post := a.ab.VerifSnapshot()
+	// with a short side tip the walk may start there (map order) and find fewer than truncateDiff
+	// ancestors: a legitimate no-op; try again until the walk starts from the long tip
+	for try := 0; sh.sideTip && len(post.CpVertices) == len(preSnap.CpVertices) && try < 12; try++ {
+		c.Count("trunc.noop-from-short-tip")
+		if err := w.Truncate(a); err != nil {
+			c.Violate("C07", "truncate-fails", fmt.Sprintf("truncate on shape %s: %v", sh.name, err), info)
+			return
+		}
+		post = a.ab.VerifSnapshot()
+	}
+	if sh.sideTip && len(post.CpVertices) == len(preSnap.CpVertices) {
+		return // never started from the long tip in this run: nothing to compare
+	}
 	moved := map[[32]byte]accountant.Vertex{}
 	for _, v := range post.CpVertices {
 		moved[v.Hash] = v
@@ -147,17 +161,74 @@ func truncScenario(c *Ctx, sh truncShape) {
 	}
 	// checkpointed funds = net flow of exactly the moved vertices (+ earlier checkpoint)
 	w.checkpointOracle(&preSnap, &post, moved, info)
-	// ---- balances unchanged
+	// ---- balances unchanged. A balance is computed from one tip (whichever the node picks), so the comparison
+	// is per tip, with an independent reference: checkpoint + flows over the tip's live ancestors.
 	after := w.balancesOf(a)
-	for addr, bv := range before {
-		if after[addr] != bv {
-			key := "balance-changed-by-truncation"
-			if addr == preSnap.Genesis {
-				key = "genesis-issuer-debt-clipped"
-			} else if bv == "err" {
-				key = "negative-balance-clipped"
+	refPerTip := func(s *accountant.VerifSnap, addr string) map[[32]byte]string {
+		live := liveMap(s)
+		par := parentsByEdges(s)
+		cp := new(big.Int)
+		if m, ok := s.CpFunds[addr]; ok {
+			cp = bval(m)
+		}
+		out := map[[32]byte]string{}
+		for _, tip := range s.Leaves {
+			vs := []*accountant.Vertex{live[tip]}
+			for x := range ancestorsOf(tip, par) {
+				if v := live[x]; v != nil {
+					vs = append(vs, v)
+				}
 			}
-			c.Violate("C07", key, fmt.Sprintf("shape %s: balance of %s was %s before and %s after truncation", sh.name, w.A(addr), bv, after[addr]), info)
+			in, o := flow(addr, vs)
+			r := new(big.Int).Add(cp, in)
+			r.Sub(r, o)
+			out[tip] = r.String()
+		}
+		return out
+	}
+	prePar := parentsByEdges(&preSnap)
+	for _, wl := range w.wallets {
+		addr := wl.Address()
+		rb, ra := refPerTip(&preSnap, addr), refPerTip(&post, addr)
+		for tip, bv := range rb {
+			av, ok := ra[tip]
+			if !ok || av == bv {
+				continue
+			}
+			// does the tip descend from everything that was moved? (then its history is the same as before)
+			anc := ancestorsOf(tip, prePar)
+			descends := true
+			for h := range moved {
+				if !anc[h] {
+					descends = false
+					break
+				}
+			}
+			key := "balance-changed-by-truncation"
+			switch {
+			case addr == preSnap.Genesis:
+				key = "genesis-issuer-debt-clipped"
+			case strings.HasPrefix(bv, "-"):
+				key = "negative-balance-clipped"
+			case !descends:
+				key = "stale-tip-credited-with-foreign-checkpoint"
+			}
+			c.Violate("C07", key, fmt.Sprintf("shape %s: balance of %s seen from tip %x was %s before and %s after truncation", sh.name, w.A(addr), tip[:4], bv, av), info)
+		}
+	}
+	// what the node itself reports must be one of the per-tip references (C06's oracle runs on every BAL line);
+	// with a single tip the reported values themselves must agree
+	if len(preSnap.Leaves) == 1 && len(post.Leaves) == 1 {
+		for addr, bv := range before {
+			if after[addr] != bv {
+				key := "balance-changed-by-truncation"
+				if addr == preSnap.Genesis {
+					key = "genesis-issuer-debt-clipped"
+				} else if bv == "err" {
+					key = "negative-balance-clipped"
+				}
+				c.Violate("C07", key, fmt.Sprintf("shape %s: balance of %s was %s before and %s after truncation", sh.name, w.A(addr), bv, after[addr]), info)
+			}
 		}
 	}
 	// ---- lookups and re-submission
@@ -315,10 +386,10 @@ func init() {
 		shapes := []truncShape{
 			{name: "chain-twice", nodes: 1, build: 1150, second: true},
 			{name: "selfxfer-braid", nodes: 2, build: 1200, selfXfer: true},
+			{name: "sidetip", nodes: 1, build: 1250, sideTip: true},
 		}
 		if c.Tier == "thorough" {
 			shapes = append(shapes,
-				truncShape{name: "sidetip", nodes: 1, build: 1250, sideTip: true},
 				truncShape{name: "braid-twice", nodes: 2, build: 1120, second: true},
 				truncShape{name: "braid3", nodes: 3, build: 1300},
 			)
